@@ -5,7 +5,8 @@ from . import universe
 
 MODULE = "StorageModel.Properties.C03"
 THEOREMS = ["inv_init", "inv_step", "inv_tx", "inv_reachable", "unique_index_exact", "nullable_unique_index_exact",
-            "set_index_exact", "no_empty_keys", "child_data_inside_entity", "registered_values", "index_paths_distinct",
+            "set_index_exact", "no_empty_keys", "child_data_inside_entity", "registered_values", "indexed_values_fit",
+            "oversize_rejected", "index_paths_distinct",
             "schema_index_paths_distinct", "index_paths_off_entities", "uniq_injective", "unique_holder", "dup_rejected",
             "empty_rejected", "error_changes_nothing", "step_refines_spec", "render_eq_spec", "no_panic"]
 
@@ -131,7 +132,9 @@ RULE = ("random histories (seeded) of 5-24 (quick) / 5-40 (thorough) transaction
         "prefixes 0x05 0x07; the bucket and field names indexes things ext u name alias roles tag), a third of their role updates "
         "splitting a composite into its parts, merging the set into one composite or re-ordering it; every tier adds, per family, all "
         "(old set -> new set) pairs over its first 3 (quick) / 4 (thorough) members on one entity (patch / full update / through the "
-        "child store) next to a second holder, and all ordered hand-overs of two members between two entities' name and alias; thorough adds all 111,150 histories of length <= 4 over 2 ids x 2 values with an "
+        "child store) next to a second holder, and all ordered hand-overs of two members between two entities' name and alias; and 13 key-size histories: name / alias of "
+        "32767, 32768, 32769 bytes (bbolt MaxKeySize = 32768) on create, update, child create, with a second entity asking for the "
+        "same value afterwards, and a role of 32767 bytes; thorough adds all 111,150 histories of length <= 4 over 2 ids x 2 values with an "
         "18-letter operation alphabet and all 69,904 histories of length <= 4 over 2 ids with a 16-letter alphabet of parent / "
         "child operations under the all-names-differ schema with a three-element base path and registration order "
         "roles,alias,name; a history is non-trivial when it has >= 2 committed "
